@@ -15,12 +15,15 @@ pub const FLAT_STRUCTS: &[(&str, &str)] = &[
     ("SearchState", "engine_core/src/engine/search.rs"),
     ("SearchParams", "engine_core/src/engine/search.rs"),
     ("Go", "uci/src/uci.rs"),
+    ("HashTable", "engine_core/src/engine/table.rs"),
+    ("MagicConfiguration", "board/src/board/precalculated/magic.rs"),
+    ("Color", "core/src/constants/color.rs"),
 ];
 
 /// types whose values are only passed around: Lean type variables
 pub const OPAQUE_TYPES: &[&str] = &["Square"];
 
-const PLAIN: What = What::Fn { opaque: &[], vec_list: false };
+const PLAIN: What = What::Fn { opaque: &[], vec_list: false, bits: false };
 
 const BOARD_CONSTS: &str = "board/src/board/constants.rs";
 const BOARD: &str = "board/src/board.rs";
@@ -34,13 +37,34 @@ const KILLER: &str = "engine_core/src/engine/table/killer.rs";
 const FEN: &str = "core/src/fen.rs";
 const SEARCH: &str = "engine_core/src/engine/search.rs";
 const MOVE_ORDER: &str = "engine_core/src/engine/move_order.rs";
+const TABLE: &str = "engine_core/src/engine/table.rs";
+const MAGIC: &str = "board/src/board/precalculated/magic.rs";
+const BITS: What = What::Fn { opaque: &[], vec_list: true, bits: true };
+const BOARD_LIB: &str = "board/src/lib.rs";
+/// the attack-table lookups: opaque functions of (square, occupancy) / (square)
+const TABLES: &[Opaque] = &[
+    Opaque { recv: "ROOK_MAGICS", method: "get_attacks", ret: "u64" },
+    Opaque { recv: "BISHOP_MAGICS", method: "get_attacks", ret: "u64" },
+    Opaque { recv: "KNIGHT_NONMAGICS", method: "get_attacks", ret: "u64" },
+    Opaque { recv: "WHITE_PAWN_NONMAGICS", method: "get_attacks", ret: "u64" },
+    Opaque { recv: "BLACK_PAWN_NONMAGICS", method: "get_attacks", ret: "u64" },
+    Opaque { recv: "KING_NONMAGICS", method: "get_attacks", ret: "u64" },
+];
+const CHECK: What = What::Fn { opaque: TABLES, vec_list: true, bits: true };
+macro_rules! ps { ($n:literal) => { Target { module: "Check", file: BOARD, container: Impl("PlayerState"), name: $n, what: BITS } }; }
+macro_rules! bb { ($n:literal) => { Target { module: "Check", file: BOARD, container: Impl("Bitboard"), name: $n, what: CHECK } }; }
+
+/// constant used by the bit-manipulating functions (module `MoveBits`)
+macro_rules! cb { ($n:literal) => { Target { module: "MoveBits", file: BOARD_CONSTS, container: Free, name: $n, what: What::ConstB } }; }
+/// accessor / setter / predicate of `impl Move` (module `MoveBits`)
+macro_rules! mv { ($n:literal) => { Target { module: "MoveBits", file: BOARD, container: Impl("Move"), name: $n, what: BITS } }; }
 
 pub const TARGETS: &[Target] = &[
     // ---- Board
     Target { module: "Board", file: BOARD_CONSTS, container: Free, name: "WHITE", what: What::Const },
     Target { module: "Board", file: BOARD_CONSTS, container: Free, name: "BLACK", what: What::Const },
     Target { module: "Board", file: BOARD, container: Impl("Bitboard"), name: "ply_clock", what: PLAIN },
-    Target { module: "Board", file: BOARD, container: Free, name: "Move", what: What::Struct },
+    Target { module: "Board", file: BOARD, container: Free, name: "Move", what: What::Struct { bits: false } },
     // ---- ZobristHistory
     Target { module: "ZobristHistory", file: ZH, container: Impl("ZobristHistory"), name: "count_repetitions", what: PLAIN },
     // ---- Uci
@@ -60,7 +84,7 @@ pub const TARGETS: &[Target] = &[
                 Opaque { recv: "bitboard", method: "is_current_in_check", ret: "bool" },
                 Opaque { recv: "self", method: "evaluate_ongoing", ret: "i32" },
             ],
-            vec_list: false,
+            vec_list: false, bits: false,
         },
     },
     Target { module: "Heuristic", file: HEUR, container: Trait("Heuristic"), name: "score_from_value", what: PLAIN },
@@ -76,12 +100,12 @@ pub const TARGETS: &[Target] = &[
     Target { module: "Square", file: CORE_CONSTS, container: Free, name: "to_square_index_from_indices", what: PLAIN },
     Target {
         module: "Square", file: SQUARE, container: Impl("Square"), name: "from_indices",
-        what: What::Fn { opaque: &[Opaque { recv: "Self", method: "from_index", ret: "Option<Self>" }], vec_list: false },
+        what: What::Fn { opaque: &[Opaque { recv: "Self", method: "from_index", ret: "Option<Self>" }], vec_list: false, bits: false },
     },
     Target { module: "Square", file: SQUARE, container: Impl("Square"), name: "from_chars", what: PLAIN },
     // ---- KillerTable
-    Target { module: "KillerTable", file: KILLER, container: Impl("KillerTable"), name: "put", what: What::Fn { opaque: &[], vec_list: true } },
-    Target { module: "KillerTable", file: KILLER, container: Impl("KillerTable"), name: "get", what: What::Fn { opaque: &[], vec_list: true } },
+    Target { module: "KillerTable", file: KILLER, container: Impl("KillerTable"), name: "put", what: What::Fn { opaque: &[], vec_list: true, bits: false } },
+    Target { module: "KillerTable", file: KILLER, container: Impl("KillerTable"), name: "get", what: What::Fn { opaque: &[], vec_list: true, bits: false } },
     // ---- MoveOrder
     Target { module: "MoveOrder", file: MOVE_ORDER, container: Impl("MvvLvaMoveOrder"), name: "eval", what: PLAIN },
     Target { module: "MoveOrder", file: MOVE_ORDER, container: Impl("MvvLvaMoveOrder"), name: "move_bonus", what: PLAIN },
@@ -96,4 +120,41 @@ pub const TARGETS: &[Target] = &[
     Target { module: "Search", file: SEARCH, container: Impl("Search"), name: "get_self_time_remaining", what: PLAIN },
     Target { module: "Search", file: SEARCH, container: Impl("Search"), name: "get_self_increment", what: PLAIN },
     Target { module: "Search", file: SEARCH, container: Impl("Search"), name: "calculate_max_thinking_time", what: PLAIN },
+    // ---- HashTable (the keyed table behind the transposition table; property C18)
+    Target { module: "Table", file: TABLE, container: Impl("HashTable"), name: "new", what: PLAIN },
+    Target { module: "Table", file: TABLE, container: Impl("HashTable"), name: "clear", what: PLAIN },
+    Target { module: "Table", file: TABLE, container: Impl("HashTable"), name: "put", what: PLAIN },
+    Target { module: "Table", file: TABLE, container: Impl("HashTable"), name: "get", what: PLAIN },
+    Target { module: "Table", file: TABLE, container: Impl("HashTable"), name: "len", what: PLAIN },
+    // ---- magic bitboards: index computation and table lookup (property C04)
+    Target { module: "Magic", file: MAGIC, container: Free, name: "magic_hash", what: BITS },
+    Target { module: "Magic", file: MAGIC, container: Impl("MagicConfiguration"), name: "hash", what: BITS },
+    Target { module: "Magic", file: MAGIC, container: Impl("MagicConfiguration"), name: "get_attacks", what: BITS },
+    // ---- the packed move word: constants, getters, setters, predicates of `impl Move` (properties C02 / C03)
+    cb!("NO_PIECE"), cb!("PAWN"), cb!("KNIGHT"), cb!("BISHOP"), cb!("ROOK"), cb!("QUEEN"), cb!("KING"),
+    cb!("PIECE_MOVED_MASK"), cb!("PIECE_ATTACKED_MASK"), cb!("SELF_LOST_KING_SIDE_CASTLE_MASK"), cb!("SELF_LOST_QUEEN_SIDE_CASTLE_MASK"),
+    cb!("OPPONENT_LOST_KING_SIDE_CASTLE_MASK"), cb!("OPPONENT_LOST_QUEEN_SIDE_CASTLE_MASK"), cb!("CASTLE_MOVE_MASK"), cb!("EN_PASSANT_ATTACK_MASK"),
+    cb!("SOURCE_SQUARE_MASK"), cb!("TARGET_SQUARE_MASK"), cb!("HALFMOVE_RESET_MASK"), cb!("PREVIOUS_HALFMOVE_MASK"),
+    cb!("PREVIOUS_EN_PASSANT_SQUARE_MASK"), cb!("NEXT_EN_PASSANT_SQUARE_MASK"), cb!("PROMOTION_PIECE_MASK"), cb!("SIDE_TO_MOVE_MASK"),
+    cb!("PIECE_MOVED_SHIFT"), cb!("PIECE_ATTACKED_SHIFT"), cb!("SELF_LOST_KING_SIDE_CASTLE_SHIFT"), cb!("SELF_LOST_QUEEN_SIDE_CASTLE_SHIFT"),
+    cb!("OPPONENT_LOST_KING_SIDE_CASTLE_SHIFT"), cb!("OPPONENT_LOST_QUEEN_SIDE_CASTLE_SHIFT"), cb!("CASTLE_MOVE_SHIFT"), cb!("EN_PASSANT_ATTACK_SHIFT"),
+    cb!("SOURCE_SQUARE_SHIFT"), cb!("TARGET_SQUARE_SHIFT"), cb!("HALFMOVE_RESET_SHIFT"), cb!("PREVIOUS_HALFMOVE_SHIFT"),
+    cb!("PREVIOUS_EN_PASSANT_SQUARE_SHIFT"), cb!("NEXT_EN_PASSANT_SQUARE_SHIFT"), cb!("PROMOTION_PIECE_SHIFT"), cb!("SIDE_TO_MOVE_SHIFT"),
+    mv!("get_piece_moved"), mv!("get_piece_attacked"), mv!("get_self_lost_king_side_castle"), mv!("get_self_lost_queen_side_castle"),
+    mv!("get_opponent_lost_king_side_castle"), mv!("get_opponent_lost_queen_side_castle"), mv!("get_castle_move"), mv!("get_en_passant_attack"),
+    mv!("get_source_square"), mv!("get_target_square"), mv!("get_halfmove_reset"), mv!("get_previous_halfmove"),
+    mv!("get_previous_en_passant_square"), mv!("get_next_en_passant_square"), mv!("get_promotion_piece"), mv!("get_side_to_move"),
+    mv!("set_piece_moved"), mv!("set_piece_attacked"), mv!("set_self_lost_king_side_castle"), mv!("set_self_lost_queen_side_castle"),
+    mv!("set_opponent_lost_king_side_castle"), mv!("set_opponent_lost_queen_side_castle"), mv!("set_castle_move"), mv!("set_en_passant_attack"),
+    mv!("set_source_square"), mv!("set_target_square"), mv!("set_halfmove_reset"), mv!("set_previous_halfmove"),
+    mv!("set_previous_en_passant_square"), mv!("set_next_en_passant_square"), mv!("set_promotion_piece"), mv!("set_side_to_move"),
+    mv!("is_self_lost_king_side_castle"), mv!("is_self_lost_queen_side_castle"), mv!("is_opponent_lost_king_side_castle"),
+    mv!("is_opponent_lost_queen_side_castle"), mv!("is_en_passant_attack"), mv!("is_castle_move"), mv!("is_halfmove_reset"),
+    mv!("is_attack"), mv!("is_promotion"),
+    // ---- check detection (`is_valid`, `is_current_in_check`, ..; the attack-table lookups are opaque functions)
+    Target { module: "Check", file: BOARD, container: Free, name: "PlayerState", what: What::Struct { bits: true } },
+    ps!("kings"), ps!("queens"), ps!("rooks"), ps!("bishops"), ps!("knights"), ps!("pawns"), ps!("occupancy"), ps!("full_occupancy"),
+    Target { module: "Check", file: BOARD_LIB, container: Free, name: "opposite_color", what: BITS },
+    bb!("is_white_turn"), bb!("opposite_turn"), bb!("_is_square_in_check"), bb!("_is_in_check_by_bits"),
+    bb!("is_valid"), bb!("is_current_in_check"), bb!("is_in_check"),
 ];
